@@ -95,7 +95,7 @@ func (fv *FV) evalBuiltin(st *State, call *ast.CallExpr, name string) []Term {
 		mp := fv.lvalue(st, call.Args[0])
 		m := fv.readPath(st, mp, false)
 		k := fv.evalExpr(st, call.Args[1])
-		fv.writePath(st, mp, mkMap(m.Sort, sx("store", mpDom(m), k.S, "false"), mpVal(m), mpNil(m).S), call.Pos())
+		fv.writePath(st, mp, mkMap(m.Sort, sx("store", mpDom(m), k.S, "false"), sx("store", mpVal(m), k.S, fv.ss.Zero(m.Sort.Elem)), mpNil(m).S), call.Pos())
 		return nil
 	case "panic":
 		for _, a := range call.Args {
